@@ -1514,7 +1514,7 @@ var Engine = &core.Engine{
 	},
 	Cases: func(tier string) int {
 		if tier == "thorough" {
-			return 240000
+			return 160000
 		}
 		return 12000
 	},
